@@ -3,7 +3,7 @@ import Req.Client.Multipart
 /-!
 Model of `parseRequestBody` (`middleware.go`) with its helpers `isPayloadForbid`
 (`client.go`), `handleFormData`, `handleOrderedFormData`, `handleMultiPart`,
-`handleMarshalBody`, as REPAIRED by fixes/C17-2 … C17-4:
+`handleMarshalBody`, as REPAIRED by fixes/C17-2 … C17-4, C17-6, C17-7, C17-10:
 
 * an odd `OrderedFormData` count is an error of THIS call (C17-2);
 * client-level form data is merged before the multipart branch, so it is part of multipart
@@ -56,6 +56,10 @@ def isInfix (pat : Bytes) : Bytes → Bool
   | [] => pat.isEmpty
   | c :: cs => pat.isPrefixOf (c :: cs) || isInfix pat cs
 
+/-- `util.IsXMLType` (fixes/C17-10): the media type contains "xml", compared in lower case —
+`application/xml`, `text/xml; charset=utf-8`, `application/soap+xml`, `Application/XML`. -/
+def isXMLType (ct : Bytes) : Bool := isInfix xmlWord (Req.Ascii.lower ct)
+
 /-- The Content-Type in effect after `parseRequestHeader`: the request's, else the client's. -/
 def effCT (c : Cfg) : Bytes := if c.reqCT.isEmpty then c.clientCT else c.reqCT
 
@@ -72,8 +76,9 @@ def dispatch (c : Cfg) : Option Out :=
     | some pairs =>
       let merged := mergeForm c.reqForm c.clientForm
       if c.multipart then
-        some ⟨.multipart, some (Req.Multipart.write c.boundary (pairs ++ flatten merged) c.files),
-              Req.Multipart.formDataContentType c.boundary⟩
+        match Req.Multipart.writeChecked c.boundary (pairs ++ flatten merged) c.files with
+        | .ok body => some ⟨.multipart, some body, Req.Multipart.formDataContentType c.boundary⟩
+        | .error _ => none   -- a refused field / file fails the call (fixes/C17-6, C17-7)
       else if !merged.isEmpty || !pairs.isEmpty then
         some ⟨.form, some (joinAmp (encodePairs pairs) (encode merged)), formCT⟩
       else
@@ -83,7 +88,7 @@ def dispatch (c : Cfg) : Option Out :=
             match json with
             | some j => some ⟨.marshalJson, some j, jsonCT⟩
             | none => none
-          else if isInfix xmlWord (effCT c) then
+          else if isXMLType (effCT c) then
             match xml with
             | some x => some ⟨.marshalXml, some x, effCT c⟩
             | none => none
